@@ -74,10 +74,10 @@ def _variants(n_steps):
     base = _base(n_steps)
     out = {}
 
-    def var(name, fn, plan=None):
+    def var(name, fn, plan=None, exclude=()):
         cfg = copy.deepcopy(base)
         fn(cfg)
-        out[name] = (cfg, plan or [n_steps])
+        out[name] = (cfg, plan or [n_steps], tuple(exclude))
 
     def sf(cfg):
         return cfg["estimation"]["sequential_filter"]
@@ -124,6 +124,19 @@ def _variants(n_steps):
     var("extra_target", extra_target)
     var("removed_target", lambda c: c["engines"][0]["targets"].pop(2))
     var("removed_twin", lambda c: c["engines"][0]["targets"].pop(0))
+    # other agents' own physical parameters / position in the configuration must not leak into anybody's truth
+    var("reordered_targets", lambda c: c["engines"][0]["targets"].reverse())
+    var("reordered_sensors", lambda c: c["engines"][0]["sensors"].reverse())
+
+    def heavy_twin(c):
+        c["engines"][0]["targets"][0]["platform"].update(mass=12.0, visual_cross_section=40.0, reflectivity=0.9)
+
+    var("twin_other_area_to_mass", heavy_twin, exclude=(10000,))  # the twin's own truth legitimately changes
+
+    def first_target_geo(c):
+        c["engines"][0]["targets"].insert(0, scen.target_eci(9990, *scen.overhead_orbit(START, -3.0, 100.0, 35786.0, 90.0)))
+
+    var("extra_first_target_geo", first_target_geo)
     var("extra_sensor", lambda c: c["engines"][0]["sensors"].append(scen.ground_sensor(20003, 12.0, 27.0)))
     var("removed_sensor", lambda c: c["engines"][0]["sensors"].pop(1))
 
@@ -198,7 +211,7 @@ def _run_here(cfg, plan, choices=()):
             "trace": list(fakeray.SCHED.trace)}
 
 
-def _compare(res, name, base, run, nontrivial, item, kind="variant"):
+def _compare(res, name, base, run, nontrivial, item, kind="variant", exclude=()):
     case = {"pair": name, "kind": kind}
     if run["error"] or base["error"]:
         res.violate(f"{kind}/run_error", case, signature=f"C10/{kind}/run_error", observed=run["error"] or base["error"], item=item)
@@ -206,7 +219,7 @@ def _compare(res, name, base, run, nontrivial, item, kind="variant"):
     ok_len = len(run["truth"]) == len(base["truth"])
     first = None
     for k, (a, b) in enumerate(zip(base["truth"], run["truth"])):
-        for aid in set(a) & set(b):
+        for aid in sorted((set(a) & set(b)) - set(exclude)):
             if a[aid] != b[aid]:
                 first = (k + 1, aid, np.frombuffer(a[aid]).tolist(), np.frombuffer(b[aid]).tolist())
                 break
@@ -224,7 +237,7 @@ def _compare(res, name, base, run, nontrivial, item, kind="variant"):
         outcome="identical" if (ok_len and first is None) else "differs",
         item=item,
     )
-    common = set(base["rows"]) & set(run["rows"])
+    common = {k for k in set(base["rows"]) & set(run["rows"]) if k[0] not in exclude}
     bad = [k for k in sorted(common) if base["rows"][k] != run["rows"][k]]
     res.case(
         f"{kind}/truth_rows",
@@ -268,14 +281,14 @@ def run_item(item):
     kind, name, n = item[0], item[1], item[2]
     if kind == "variant":
         base_cfg, variants = _variants(n)
-        cfg, plan = variants[name]
+        cfg, plan, exclude = variants[name]
         b = _base_run(n)
         r = _run(cfg, plan)
         # non-trivial iff the variant changes something other than truth (or is a split / membership change)
         changes_other = (r["n_obs"] != b["n_obs"] or r["n_est"] != b["n_est"] or r["est"] != b["est"]
                          or len(r["rows"]) != len(b["rows"]) or name.startswith("split"))
         res.case("variant/changes_something", {"pair": name}, True, outcome="changes_non_truth" if changes_other else "no_visible_change")
-        _compare(res, name, b, r, changes_other, item)
+        _compare(res, name, b, r, changes_other, item, exclude=exclude)
         res.states += len(r["truth"]) + 1
         res.transitions += len(r["truth"])
         res.traces += 1
